@@ -176,6 +176,8 @@ class Family:
         return self.classes()[0].from_dict(d)
 
 
-FAMILIES_QUICK = ["daily:current", "daily:legacy", "billing", "hourly:default", "hourly:default:ghi", "caltrack", "hourly:supp"]
+# every alternative fitting path of the hourly family (other scaler, adaptive re-weighting) is in the quick tier too: state that only one of them keeps
+# (fitted scalers, warm-started estimators) is invisible under the default profile
+FAMILIES_QUICK = ["daily:current", "daily:legacy", "billing", "hourly:default", "hourly:default:ghi", "caltrack", "hourly:supp", "hourly:robust", "hourly:adaptive"]
 FAMILIES_ALL = ["daily:" + p for p in DAILY_PROFILES] + ["billing"] + ["hourly:" + p for p in HOURLY_PROFILES] + \
                ["hourly:default:ghi", "hourly:robust:ghi", "hourly:bins8:ghi", "hourly:default:irregular", "hourly:supp:ghi"] + ["caltrack"]
